@@ -157,6 +157,24 @@ CONFIG = C()
 '''
 
 
+CLI_CFG_ENV = '''
+import os
+from monkeytype.config import DefaultConfig
+from monkeytype.db.sqlite import SQLiteStore
+class C(DefaultConfig):
+    """built afresh by every command (`-c c06cfg_env:make()`): limit and database come from the environment of that command"""
+    def __init__(self):
+        self.k = int(os.environ["C06_K"])
+        self.db = os.environ["C06_DB"]
+    def trace_store(self):
+        return SQLiteStore.make_store(self.db)
+    def max_typed_dict_size(self):
+        return self.k
+def make():
+    return C()
+'''
+
+
 def text_counts(stub_text):
     """key counts of every TypedDict class a whole module stub defines, executed in order as Python would"""
     import ast
@@ -236,12 +254,24 @@ def cli_cases(ctx, rnd):
                     shapes.append((fn.__qualname__ + ":" + pos, sorted(keys), "plain"))
             SQLiteStore.make_store(db).add(traces)
             so, se = io.StringIO(), io.StringIO()
+            # a third of the constant-limit cases name ONE configuration factory shared by all of them (same -c text every
+            # time, several commands in this process): each command must see the limit / database of its own environment
+            envcfg = (not ctxdep) and i % 3 == 0
+            cfgarg = f"{cfgname}:CONFIG"
+            if envcfg:
+                with open(os.path.join(d, "c06cfg_env.py"), "w") as f:
+                    f.write(CLI_CFG_ENV)
+                os.environ["C06_K"], os.environ["C06_DB"] = str(k), db
+                cfgarg = "c06cfg_env:make()"
             try:
-                rc = cli.main(["-c", f"{cfgname}:CONFIG"] + flags + ["stub", "c06cli_fx"], so, se)
+                rc = cli.main(["-c", cfgarg] + flags + ["stub", "c06cli_fx"], so, se)
             except Exception as e:
                 rc, se = 99, io.StringIO(f"{type(e).__name__}: {e}")
+            finally:
+                os.environ.pop("C06_K", None)
+                os.environ.pop("C06_DB", None)
             stub = so.getvalue()
-            rec = {"k": k, "recorded_under": rec_k, "limit_only_inside_cli_context": ctxdep, "flags": flags, "shapes": shapes, "rc": rc, "stub": stub[:3000],
+            rec = {"k": k, "recorded_under": rec_k, "limit_only_inside_cli_context": ctxdep, "shared_factory_config": envcfg, "flags": flags, "shapes": shapes, "rc": rc, "stub": stub[:3000],
                    "stderr": se.getvalue()[-400:]}
             if rc != 0 or not stub.strip():
                 rec["counts"], rec["collision"] = [10 ** 6], False
